@@ -20,6 +20,10 @@ LEVEL_TEXT = (
     "Every model in the full Cartesian product of 11 shape features is built through the public API and queried "
     "through all 8 entry points at 6 (state,time) points; every number is compared with a demand-driven reference "
     "evaluator written from the statement. Exhaustive within the product; not a proof for shapes outside it."
+    " Added dimensions: coefficients that are exactly zero (literal / computed), the shipped polynomial "
+    "surrogate, a user-defined surrogate whose predict() returns its mapping in another order, frames / "
+    "mappings with their columns / keys in other orders, and the same model asked again after update_parameter "
+    "/ scale_parameter. "
 )
 LEVEL_NOTE = "trusted: CPython/numpy/pandas, mc/refeval.py (self-tested), finite state grid"
 RULE = (
